@@ -115,14 +115,7 @@ def _term_obj():
     return ObjT("BlessedTerminal", dict(hide_cursor=OSM.HIDE, normal_cursor=OSM.NORMAL))
 
 
-def _write_effect(a, st, res):
-    OSM.feed(st, a._raw["msg"] if isinstance(a._raw["msg"], str) else None)
-
-
-window_write = Contract(WN + "BaseWindow.write", "C12", ["self", "msg"], kind="method", shapes=[],
-                        doc="ASSUMED: out_stream.write+flush deliver msg to the terminal (ghost terminal: cursor visibility, alternate screen, main-screen writes)")
-window_write.effect = _write_effect
-window_write.assumed = True
+window_write = OSM.window_write
 
 # blessed's Terminal.fullscreen() context manager (assumed): writes enter_fullscreen / exit_fullscreen
 fs_enter = Contract("ext:FullscreenCtx.__enter__", "C12", ["self"], shapes=[], doc="ASSUMED blessed: writes enter_fullscreen")
